@@ -87,6 +87,11 @@ func New(w http.ResponseWriter, r *http.Request, options ...Option) (*ResponseWr
 	case opts.mhPathType:
 		mhStr := strings.TrimSpace(path.Base(r.URL.Path))
 		b, err = base58.Decode(mhStr)
+		if err == nil {
+			// A hex string without the digit 0 is also a base58 string. Only
+			// take the key as base58 if that gives a valid multihash.
+			_, err = multihash.Decode(b)
+		}
 		if err != nil {
 			b, err = hex.DecodeString(mhStr)
 			if err != nil {
